@@ -106,7 +106,7 @@ struct Session {
         if (cur.innermost()->k == K_OBJ) {
             bbuf *n = binson_parser_get_name(p);
             if (!n) fail(op, "name=NULL", "get_name returned NULL inside an object after a successful call");
-            if (n->bptr != pb.input.p + v->npb || n->bsize != v->name.size())
+            if ((n->bsize && n->bptr != pb.input.p + v->npb) || n->bsize != v->name.size())  // an empty span names no byte: only its size is compared
                 fail(op, "name-span", fmt("name span off=%td len=%zu expected off=%zu len=%zu", n->bptr - pb.input.p, n->bsize, v->npb, v->name.size()));
         }
         int64_t gi = binson_parser_get_integer(p);
@@ -121,10 +121,10 @@ struct Session {
         case ref::K_BOOL: if (gb != v->b) fail(op, "bool-value", "get_boolean mismatch"); break;
         case ref::K_DBL: if (gdb != v->d) fail(op, "double-bits", fmt("get_double bits %016" PRIx64 " expected %016" PRIx64, gdb, v->d)); break;
         case ref::K_STR:
-            if (!gs || gs->bptr != pb.input.p + v->pb || gs->bsize != v->s.size()) fail(op, "string-span", "string span mismatch");
+            if (!gs || (gs->bsize && gs->bptr != pb.input.p + v->pb) || gs->bsize != v->s.size()) fail(op, "string-span", "string span mismatch");
             break;
         case ref::K_BYT:
-            if (!gy || gy->bptr != pb.input.p + v->pb || gy->bsize != v->s.size()) fail(op, "bytes-span", "bytes span mismatch");
+            if (!gy || (gy->bsize && gy->bptr != pb.input.p + v->pb) || gy->bsize != v->s.size()) fail(op, "bytes-span", "bytes span mismatch");
             break;
         default: break;
         }
